@@ -31,7 +31,7 @@ ASSUMPTIONS = [
     "an earlier include field means is not stated by the property",
     "the format layer (C04) is trusted to write the files the harness prepares",
 ]
-REQUIRED = ["format-options", "cwd-decoy", "mode:merge", "mode:load", "mode:missing", "scope:root", "scope:nested", "scope:deep", "chain", "chain:named-by-included-file", "link:same", "link:nested", "schema-extended-after-a-load", "nested-scope-only-from-included-file", "startdir:home-relative", "path:relative",
+REQUIRED = ["format-options", "cwd-decoy", "mode:merge", "mode:load", "mode:missing", "scope:root", "scope:nested", "scope:deep", "chain", "chain:named-by-included-file", "link:same", "link:nested", "schema-extended-after-a-load", "nested-scope-only-from-included-file", "startdir:home-relative", "reload-after-edit", "path:relative",
             "path:absolute", "conflict:map-vs-scalar"] + ["fmt:" + f for f in trees.FORMATS]
 LEVEL_TEXT = (
     "Generated tree pairs/chains and real include files with a 10-line reference merge and a metamorphic "
@@ -393,6 +393,32 @@ def run_case(case, R):
             if real_out[0] == "ok":
                 R.check(tree_eq(real_out[1], model_out[1]), "equivalence", "state",
                         lambda: "state after loads differs from state after load_tree(merged): %s" % tree_diff(model_out[1], real_out[1]))
+        # ---- the included files are edited on disk and the same document is loaded again (same schema object) ------------
+        if real_out[0] == "ok" and model_out[0] == "ok" and merged_files:
+            R.label("reload-after-edit")
+            for n, (full, ref, how) in enumerate(refs):
+                files[ref] = ref_merge(files[ref], {"e1": "edited-%d" % n, "c": {"a": n}})
+                with open(full, "wb") as fp:
+                    fp.write(formatter.dumps(dummy, files[ref]))
+            del merged_files[:]
+            expected2 = ref_process(copy.deepcopy(base), 0)
+            real2 = schema()
+            prestate(real2)
+            try:
+                real2.loads(doc, fmt, **fopts)
+                out2 = ("ok", _snap(cc, real2))
+            except Exception as exc:
+                out2 = ("raised", exc)
+            model2 = schema()
+            prestate(model2)
+            try:
+                model2.load_tree(copy.deepcopy(expected2))
+                mout2 = ("ok", _snap(cc, model2))
+            except Exception as exc:
+                mout2 = ("raised", exc)
+            if R.check(out2[0] == mout2[0], "equivalence", "outcome:reload", lambda: "second load after the included files were edited: %s vs %s" % (out2, mout2)) and out2[0] == "ok":
+                R.check(tree_eq(out2[1], mout2[1]), "equivalence", "state:reload",
+                        lambda: "after the included files were edited on disk, a new load differs from load_tree(merged): %s" % tree_diff(mout2[1], out2[1]))
         dmax, conf = 0, False
         for spath, key, inc, i in plan:
             node = base
